@@ -642,6 +642,53 @@ def readable_dotted(hy, text, last):
         return False
 
 
+REQUIRE_RUNTIME = [
+    # (id, program, expected keys of _hy_macros as a function of the mangled name)
+    ("require-alias-at-run-time", "(require zq_macmod [zq_m :as {n}])", lambda m: [m]),
+    ("require-two-aliases-at-run-time", "(require zq_macmod [zq_m :as {n} zq-m2 :as zq-other])", lambda m: sorted([m, "zq_other"])),
+    ("require-prefix-at-run-time", "(require zq_macmod :as {n})", lambda m: sorted([m + ".zq_m", m + ".zq_m2"])),
+]
+
+
+def run_require_runtime(chk, env, names):
+    """What a module does when it is loaded from its cached bytecode: only the run-time code that compile_require
+    emitted runs (hy.macros.require without a compiler, with the names as written in the brackets).  The program is
+    compiled in one module object and its code executed in a fresh module of the same name; the macro table of that
+    fresh module must hold the mangled alias."""
+    hy = env.hy
+    install_macmod(hy)
+    try:
+        for kind, nm in names:
+            m = hy.mangle(nm)
+            for cid, tmpl, want_of in REQUIRE_RUNTIME:
+                src = tmpl.format(n=nm)
+                mod1 = env.fresh()
+                mod1, tree, err, msg = env.run(src, mod1, execute=False)
+                chk.count("construct:" + cid)
+                chk.case(("construct", cid, nm), nontrivial=(m != nm))
+                inp = {"construct": cid, "name": nm, "mangled": m, "program": src}
+                if err:
+                    chk.fail("construct:" + cid, inp, "%s: %s" % (err, msg), "macro key %r" % m, how(src))
+                    continue
+                mod2 = types.ModuleType(mod1.__name__)
+                sys.modules[mod2.__name__] = mod2
+                try:
+                    with warnings.catch_warnings():
+                        warnings.simplefilter("ignore")
+                        exec(compile(tree, "<c34>", "exec"), mod2.__dict__)
+                    got = sorted(mod2.__dict__.get("_hy_macros", {}))
+                except Exception as e:
+                    got = "%s: %s" % (type(e).__name__, str(e)[:120])
+                finally:
+                    sys.modules.pop(mod2.__name__, None)
+                want = want_of(m)
+                if got != want:
+                    chk.fail("construct:" + cid, inp, got, want,
+                             "compile the program in module X, then exec the code object in a fresh module named X and look at its _hy_macros")
+    finally:
+        sys.modules.pop("zq_macmod", None)
+
+
 def run_pairs(chk, env, names, per_name):
     hy = env.hy
     rng = chk.rng
@@ -748,6 +795,7 @@ def run(chk):
         sub = names if thorough else names[:90]
         table_vs_ast(chk, env, table, sub)
     run_constructs(chk, env, names)
+    run_require_runtime(chk, env, names)
     run_pairs(chk, env, names if thorough else names[:100], 2 if thorough else 1)
     chk.extra["names"] = len(names)
 
